@@ -11,7 +11,7 @@ use crate::util::*;
 pub struct C03;
 pub struct C11;
 
-const FILE_NUMBERS: [u64; 12] = [0, 1, 2, 3, 4, 5, 127, 128, 16511, 16512, 1 << 32, u64::MAX];
+const FILE_NUMBERS: [u64; 24] = [0, 1, 2, 3, 4, 5, 127, 128, 16511, 16512, 1 << 32, u64::MAX, 255, 256, 999, 1000, 4095, 4096, 9999, 10_000, 10_001, 65_535, 65_536, 100_000];
 
 fn foreign_block(coin: &str, rng: &mut Rng) -> ExtraBlock {
     let sh = TxShape {
